@@ -17,6 +17,11 @@ CONSTANTS
   BugMovedIgnored = FALSE
   BugMaxOffByOne = FALSE
   BugSelClamp = FALSE
+  BugRefreshDropsInit = FALSE
+  BugAskRunNoInit = FALSE
+  BugPoolStale = FALSE
+  BugStreamKeyless = FALSE
+  BugPromoteReplica = FALSE
 INVARIANTS TypeOK BatchOrder
 CONSTRAINT GenBound
 VIEW MCView
